@@ -11,6 +11,7 @@ CORPUS = [
     ('fn scale(factor factor: Int, value value: Float) -> Float { value }\nfn capture() { let g = scale(value: 2.5, factor: 1)  g }\n', 'g =', 'Float'),
     ('fn scale(factor factor: Int, value value: Float) -> Float { value }\nfn capture() { let g = scale(2.5, factor: _)  g }\n', 'g =', 'fn(Int) -> Float'),
     ('fn build(name name: String, weight weight: Float, flag flag: Bool) { #(name, weight, flag) }\nfn capture3() { let h = build(1.5, name: _, flag: True)  h }\n', 'h =', 'fn(String) -> #(String, Float, Bool)'),
+    ('pub fn a(x) { let y = x + 1  y }\nconst a = 2\n', 'y =', 'Int'),
     ('fn pair(first, second) { #(first, second) }\nfn first() { pair(1, "a") }\nfn other() { let o = pair(1.5, Nil)  o }\n', 'o =', '#(Float, Nil)'),
     ('fn other() { let o = pair(1.5, Nil)  o }\nfn first() { pair(1, "a") }\nfn pair(first, second) { #(first, second) }\n', 'o =', '#(Float, Nil)'),
     ('fn pair(a a: Int, b b: String) { #(a, b) }\nfn use_it() { let r = pair(b: "x", a: 1)  r }\n', 'r =', '#(Int, String)'),
@@ -20,8 +21,25 @@ CORPUS = [
 ]
 
 
+WS_CORPUS = [
+    # an alias declared in another module, followed in the same signature by a type that exists only in the current module
+    ({'files': [{'path': '/app/src/shop.gleam', 'text': 'import ids.{type Id}\npub type Box { Box(Int) }\nfn pick(id: Id, box: Box) -> Box { let b = box  b }\n', 'root': 0},
+                {'path': '/app/src/ids.gleam', 'text': 'pub type Id = Int\n', 'root': 0}],
+      'roots': [{'path': '/app', 'local': True, 'deps': []}], 'file': 0}, 'b =', 'Box'),
+]
+
+
 def native_corpus(oracle):
     problems = []
+    for req, needle, want in WS_CORPUS:
+        src = req['files'][req['file']]['text']
+        q = dict(req); q['offsets'] = [src.index(needle)]
+        r = oracle.ask('hover', json.dumps(q))
+        got = (r.get('hover') or [None])[0] if isinstance(r, dict) else None
+        if not isinstance(r, dict) or 'panic' in r or 'died' in r:
+            problems.append('hover on the workspace %r: %s' % (src, r))
+        elif got is None or want not in got:
+            problems.append('hover on %r (workspace with ids.gleam `pub type Id = Int`) at %r shows %r, Gleam assigns %s' % (src, needle, got, want))
     for src, needle, want in CORPUS:
         r = oracle.ask('hover', json.dumps({'text': src, 'offsets': [src.index(needle)]}))
         got = (r.get('hover') or [None])[0] if isinstance(r, dict) else None
@@ -51,6 +69,11 @@ def run_kernel(chk, tier, jobs, props):
         res, complete = explore.explore(deporder.factory, (nv,), jobs=1)
         chk.add_run('dependency_order_query: one function whose body has %d identifier expressions (under-constrained database)' % nv, res, complete, {'identifiers': nv},
                     nontrivial_classes=lambda c: c.startswith('edges:') and c != 'edges:0')
+        found += [v for v in res.violations if any(w.startswith(tuple(props)) for w in v['why'])]
+    for na in (1, 2):
+        res, complete = explore.explore(unifier.alias_factory, (na,), jobs=1)
+        chk.add_run('make_ty_from_typeref over every alias graph of %d aliases: the resolver of the function being inferred survives the expansion' % na, res, complete, {'aliases': na},
+                    nontrivial_classes=lambda c: c.startswith('expanded'))
         found += [v for v in res.violations if any(w.startswith(tuple(props)) for w in v['why'])]
     for n in range(1, B['tables'] + 1):
         res, complete = explore.explore(unifier.table_factory, (n,), jobs=jobs)
